@@ -1,6 +1,10 @@
 package main
 
 import (
+	"io"
+	"regexp"
+	"strconv"
+	"time"
 	"os"
 	"os/exec"
 	"strings"
@@ -345,14 +349,19 @@ func init() {
 		if err == nil {
 			for t := 0; t < trials; t++ {
 				tick()
-				got, err := exec.Command(self, "c10cold", "par").Output()
+				cmd := []string{"c10cold", "par"}
+				if t%3 != 0 {
+					// two trials in three: one first-time read-only registry call lands in the middle of the runs
+					cmd = append(cmd, fmt.Sprint((t/3)%8), fmt.Sprint(200+(t*977)%9000))
+				}
+				got, err := exec.Command(self, cmd...).Output()
 				if err != nil {
 					out.Violate("C10|cold-start-crash", "a cold process whose first lint calls are concurrent crashed: "+err.Error(), nil, nil, nil)
 					break
 				}
 				if string(got) != string(ref) {
 					out.Violate("C10|cold-start-differs", "in a fresh process whose first lint calls run concurrently, results differ from a sequential cold process: "+firstDiffLine(string(ref), string(got)),
-						map[string]interface{}{"how": "harness c10cold par  vs  harness c10cold seq", "trial": t}, nil, nil)
+						map[string]interface{}{"how": "harness " + strings.Join(cmd, " ") + "  vs  harness c10cold seq (arguments after par: read-only registry call number, delay in microseconds)", "trial": t}, nil, nil)
 					break
 				}
 			}
@@ -417,6 +426,42 @@ func init() {
 					res[i] = fmt.Sprint(sel[i].File, " ", sortedResults(zlint.LintCertificate(c)))
 				}(i)
 			}
+			// with it, for the first time in this process, one call of the registry's read-only API (the listing, the name
+			// and source lists, the example configuration, a filter, the lookups): a read may not disturb the runs in flight
+			if len(args) > 2 {
+				op, _ := strconv.Atoi(args[1])
+				delay, _ := strconv.Atoi(args[2])
+				wg.Add(1)
+				go func() {
+					defer wg.Done()
+					defer func() { recover() }()
+					<-start
+					time.Sleep(time.Duration(delay) * time.Microsecond)
+					g := lint.GlobalRegistry()
+					switch op {
+					case 0:
+						g.WriteJSON(io.Discard)
+					case 1:
+						_ = g.Names()
+					case 2:
+						_ = g.Sources()
+					case 3:
+						_, _ = g.DefaultConfiguration()
+					case 4:
+						_, _ = g.Filter(lint.FilterOptions{IncludeSources: lint.SourceList{lint.RFC5280}})
+					case 5:
+						_ = g.BySource(lint.CABFBaselineRequirements)
+						_ = g.CertificateLints().BySource(lint.CABFBaselineRequirements)
+					case 6:
+						_ = g.CertificateLints().Lints()
+						_ = g.CertificateLints().ByName("e_ca_is_ca")
+						_ = g.ByName("e_ca_is_ca")
+					case 7:
+						_, _ = g.Filter(lint.FilterOptions{NameFilter: regexp.MustCompile("^e_")})
+						g.WriteJSON(io.Discard)
+					}
+				}()
+			}
 			close(start)
 			wg.Wait()
 		} else {
@@ -434,7 +479,7 @@ func init() {
 }
 
 func sortedResults(rs *zlint.ResultSet) []string {
-	var out []string
+	out := []string{fmt.Sprintf("results=%d flags=%v/%v/%v/%v", len(rs.Results), rs.NoticesPresent, rs.WarningsPresent, rs.ErrorsPresent, rs.FatalsPresent)}
 	for _, n := range sortedKeys(rs.Results) {
 		r := rs.Results[n]
 		if r.Status != 1 && r.Status != 2 && r.Status != 3 {
